@@ -2,15 +2,17 @@ package pki
 
 // The test PKI is issued with /repo's own x509.CreateCertificate, so a defect in the fork's
 // ENCODERS would be built into the test inputs and cancel out against the code under test.
-// For the one field where RFC 5280 prescribes a choice of encodings (Validity: UTCTime
-// through 2049, GeneralizedTime from 2050), the issued certificate is therefore re-assembled
-// with a validity encoded here by hand and parsed with the standard library's encoding/asn1.
+// For the fields whose DER encoding involves a choice or a boundary (Validity: UTCTime through 2049,
+// GeneralizedTime from 2050; serialNumber: the leading zero octet of a positive INTEGER; every length
+// field: short form below 128, then the fewest length octets), the issued
+// certificate is therefore re-assembled with those fields encoded here by hand and parsed with the standard library's encoding/asn1.
 // On a correct tree this is the identity; otherwise the certificate carries the RFC encoding
 // (and a signature that no longer verifies, which only a defective tree ever sees).
 
 import (
 	stdasn1 "encoding/asn1"
 	"fmt"
+	"math/big"
 	"time"
 )
 
@@ -55,9 +57,82 @@ func children(content []byte) ([][]byte, bool) {
 	return out, true
 }
 
-// WithRFCValidity returns der with its Validity replaced by the RFC 5280 encoding of (nb, na);
+// DERInteger encodes a non-negative integer as a DER INTEGER (minimal, with the leading zero octet
+// exactly when the top bit of the first magnitude octet is set).
+func DERInteger(n *big.Int) []byte {
+	b := n.Bytes()
+	if len(b) == 0 || b[0]&0x80 != 0 {
+		b = append([]byte{0}, b...)
+	}
+	return derTLV(0x02, b)
+}
+
+// readTLV reads one element leniently: identifier octets (high tag numbers included), a definite
+// length in any long form (superfluous leading zero octets accepted, so that the output of a
+// defective length encoder can still be taken apart), content.  Indefinite lengths are refused.
+func readTLV(b []byte) (id, content, rest []byte, ok bool) {
+	if len(b) < 2 {
+		return nil, nil, nil, false
+	}
+	i := 1
+	if b[0]&0x1f == 0x1f {
+		for i < len(b) && b[i]&0x80 != 0 {
+			i++
+		}
+		i++
+	}
+	if i >= len(b) {
+		return nil, nil, nil, false
+	}
+	id = b[:i]
+	n := int(b[i])
+	i++
+	if n >= 0x80 {
+		k := n & 0x7f
+		if k == 0 || k > 4 || i+k > len(b) {
+			return nil, nil, nil, false
+		}
+		n = 0
+		for j := 0; j < k; j++ {
+			n = n<<8 | int(b[i+j])
+		}
+		i += k
+	}
+	if n < 0 || i+n > len(b) {
+		return nil, nil, nil, false
+	}
+	return id, b[i : i+n], b[i+n:], true
+}
+
+// CanonLengths re-emits a sequence of elements with every length field in its minimal (DER) form,
+// descending into constructed elements; primitive contents are copied.  On DER input it is the identity.
+func CanonLengths(b []byte) ([]byte, bool) {
+	var out []byte
+	for len(b) > 0 {
+		id, content, rest, ok := readTLV(b)
+		if !ok {
+			return nil, false
+		}
+		if id[0]&0x20 != 0 {
+			if content, ok = CanonLengths(content); !ok {
+				return nil, false
+			}
+		}
+		out = append(append(append(out, id...), derLen(len(content))...), content...)
+		b = rest
+	}
+	return out, true
+}
+
+// WithRFCValidity returns der with its Validity replaced by the RFC 5280 encoding of (nb, na) and,
+// when serial is a non-negative number, its serialNumber replaced by the DER INTEGER of it;
 // ok is false if der is not shaped like a certificate (then der is returned unchanged).
-func WithRFCValidity(der []byte, nb, na time.Time) (out []byte, ok bool) {
+func WithRFCValidity(der []byte, nb, na time.Time, serial *big.Int) (out []byte, ok bool) {
+	// length fields first (hand-written reader and writer): the identity unless the fork's length
+	// encoder departs from DER, in which case the standard library could not even take der apart
+	if c, okc := CanonLengths(der); okc {
+		der = c
+	}
 	var outer stdasn1.RawValue
 	if rest, err := stdasn1.Unmarshal(der, &outer); err != nil || len(rest) != 0 || outer.Tag != 16 {
 		return der, false
@@ -79,6 +154,9 @@ func WithRFCValidity(der []byte, nb, na time.Time) (out []byte, ok bool) {
 		return der, false
 	}
 	fields[idx] = derTLV(0x30, append(RFC5280Time(nb), RFC5280Time(na)...))
+	if serial != nil && serial.Sign() >= 0 && fields[idx-3][0] == 0x02 {
+		fields[idx-3] = DERInteger(serial)
+	}
 	var body []byte
 	for _, f := range fields {
 		body = append(body, f...)
